@@ -361,6 +361,28 @@ def s8(ctx, rep):
         raise AnchorError("negative_log_marginal_likelihood: no logarithm of the Cholesky diagonal found")
 
 
+def s9(ctx, rep):
+    """a fit always ends with posterior states computed from the data it was given: `_recompute_states(data)` closes every normal
+    path of fit - also when every optimisation restart failed (the parameters were reset / restored, the data is new)"""
+    P = ctx.P
+    n = 0
+    for c in [P.cls("GaussianProcessOptimizeModel")]:       # the model the property anchors in; MCMC / HyperTune variants assemble their states differently
+        f = c.methods.get("fit")
+        if f is None or all(isinstance(s_, (ast.Raise, ast.Pass, ast.Expr)) for s_ in f.node.body):
+            continue
+        n += 1
+        cfg = cfg_of(f)
+        dp = f.params[1]
+        marks = {nd.id for nd in cfg.nodes for x in cfg.node_walk(nd.id) if isinstance(x, ast.Call) and fn_name(x) in ("_recompute_states", "recompute_states")
+                 and argn(x, 0) is not None and U(argn(x, 0)) == dp}
+        ok = bool(marks) and cfg.path([cfg.entry], cfg.exit, deleted=marks, skip_labels=("exc",)) is None
+        rep.put(ok, "S3", "must_follow", f"{c.name}.fit: the posterior states are recomputed from the data given to fit on every path", f, None, "",
+                "fit can return without recomputing the posterior states: predictions come from the previous fit's data (and factorisation) combined with "
+                "the current parameters - not the posterior of anything")
+    if n < 1:
+        raise AnchorError("no fit method of a GaussianProcessModel subclass found")
+
+
 def run(ctx, rep, tier="quick"):
     s1(ctx, rep)
     s2(ctx, rep)
@@ -371,3 +393,4 @@ def run(ctx, rep, tier="quick"):
     s6(ctx, rep)
     s7(ctx, rep)
     s8(ctx, rep)
+    s9(ctx, rep)
